@@ -239,6 +239,20 @@ func genC08(t *testing.T) {
 			run(&caseT{Cap: cp, Inputs: in, Script: append(S(k, true), "C0!", "X"), Comment: "sender close racing cancel"})
 		}
 	}
+	// busy periods (empty -> k values -> empty) of lengths around powers of two, repeated: block / segment boundaries
+	for _, k := range []int{7, 8, 9, 15, 16, 17, 31, 32, 33, 48, 64, 65, 128} {
+		for _, cp := range []int{0, 1, 4} {
+			var cyc []string
+			for round := 0; round < 3; round++ {
+				cyc = append(cyc, S(k, true)...)
+				cyc = append(cyc, rep("R0!", k)...)
+				cyc = append(cyc, "W")
+			}
+			cyc = append(cyc, "S0", "S0", "R0", "R0")
+			run(&caseT{Cap: cp, Inputs: [][]int{ids(1, 3*k+4)}, Script: cyc, Comment: "busy periods of exactly k values, then refill"})
+			run(&caseT{Cap: cp, Inputs: [][]int{ids(1, 3*k+4)}, Script: append(slices.Clone(cyc), "X"), Comment: "busy periods of exactly k values, refill, cancel"})
+		}
+	}
 	// long backlogs (never blocks the sender whatever the backlog)
 	for _, bl := range []int{100, 1000, common.Pick(2000, 10000)} {
 		for _, cp := range []int{0, 1, 7} {
